@@ -22,7 +22,8 @@ RULE = ("seeded session plans: generated HTTP(S) beacon configuration (1-3 domai
         "fault list keyed by (client, request ordinal): drop_request, drop_response, dup_request, http_error, "
         "corrupt_request, corrupt_response, delay, restart, clock jump. non-trivial = at least one task received and "
         "one callback decoded by the peer and (a fault fired or several clients interleave); distinct = distinct "
-        "event-log digest; interleaving shapes = distinct (event kind) sequences")
+        "event-log digest; interleaving shapes = distinct (event kind) sequences; 8% of the runs are kernel-less re-run plans: one "
+        "client object run for configuration A, used against a transport that is down, then run for configuration B")
 ASSUMPTIONS = [
     "when get and post verbs are equal, get URIs and submit URI are not prefixes of one another (routing is by verb+prefix)",
     "get URIs may be prefixes of one another, but the longer one then continues with a character ('.', '~') that no encoder alphabet or generated affix contains (otherwise uri-append data after the shorter URI could spell the longer URI: ambiguous by construction)",
